@@ -49,6 +49,9 @@ fn main() {
     let flavours = [Flavour::Gauge, Flavour::IntGauge, Flavour::GaugeVecChild, Flavour::IntGaugeVecChild];
     if let Some(p) = &args.replay {
         let doc = read_replay(p);
+        if doc["driver_spec"]["kind"] == "intgauge" {
+            std::process::exit(replay_cli("C11", p, &doc, IntGaugeDriver::from_spec));
+        }
         std::process::exit(replay_cli("C11", p, &doc, verif_harness::celldrv::CellDriver::from_spec));
     }
     let alpha = alphabet();
@@ -94,7 +97,7 @@ fn main() {
     }
     let ndrivers = drivers.len();
     rep.rule = format!(
-        "stateless exploration (vsched, Mode U = unbounded with sleep sets; a driver exceeding the execution cap is re-run preemption-bounded) of all thread interleavings at atomic/lock operations of: for each of 4 gauge flavours (Gauge, IntGauge, children of GaugeVec/IntGaugeVec fetched by every call), all unordered pairs of programs of length 1..2 over {:?} and all unordered triples of 1-operation programs over {:?}{}; start states fresh / pre-added / pre-set negative; every update carries a distinct power of two; oracle = linearizability (Wing-Gong) of the recorded call/return history incl. quiescent get() and collect() against a sequential gauge (add/sub/inc/dec/set/get). distinct = distinct (flavour, values read, real-time relation) outcomes",
+        "stateless exploration (vsched, Mode U = unbounded with sleep sets; a driver exceeding the execution cap is re-run preemption-bounded) of all thread interleavings at atomic/lock operations of: for each of 4 gauge flavours (Gauge, IntGauge, children of GaugeVec/IntGaugeVec fetched by every call), all unordered pairs of programs of length 1..2 over {:?} and all unordered triples of 1-operation programs over {:?}{}; start states fresh / pre-added / pre-set negative; plus integer-gauge drivers (pairs, 2+1, triples over add, sub, inc, dec, set, get) started 2 below i64::MAX and 1 above i64::MIN, judged with exact wrapping i64 arithmetic; every update carries a distinct power of two; oracle = linearizability (Wing-Gong) of the recorded call/return history incl. quiescent get() and collect() against a sequential gauge (add/sub/inc/dec/set/get). distinct = distinct (flavour, values read, real-time relation) outcomes",
         base, alpha, if thorough { "; plus triples with one 2-operation thread" } else { "" }
     );
     rep.bounds = json!({"threads": "2-3", "ops_per_thread": 2, "mode": "U (sleep sets, unbounded)", "drivers": ndrivers});
@@ -107,6 +110,23 @@ fn main() {
     let mut results = explore_many(small, Mode::U, cap, 3, 16, cl);
     SPURIOUS_BUDGET.store(0, std::sync::atomic::Ordering::Relaxed);
     results.extend(explore_many(large, Mode::U, cap, 3, 16, cl));
+    // integer gauges next to the ends of the i64 range (wrap-around must stay atomic), exact i64 arithmetic
+    let mut ext = vec![];
+    for vec_child in [false, true] {
+        for (start, ops) in [
+            (i64::MAX - 2, vec![IOp::Add(4), IOp::Inc, IOp::Sub(1), IOp::Get, IOp::Set(i64::MAX - 1)]),
+            (i64::MIN + 1, vec![IOp::Sub(4), IOp::Dec, IOp::Add(1), IOp::Get, IOp::Set(i64::MIN)]),
+        ] {
+            for i in 0..ops.len() {
+                for j in i..ops.len() {
+                    ext.push(IntGaugeDriver { vec_child, start, programs: vec![vec![ops[i]], vec![ops[j]]] });
+                    ext.push(IntGaugeDriver { vec_child, start, programs: vec![vec![ops[i], ops[j]], vec![ops[0]]] });
+                    ext.push(IntGaugeDriver { vec_child, start, programs: vec![vec![ops[i]], vec![ops[j]], vec![ops[1]]] });
+                }
+            }
+        }
+    }
+    results.extend(explore_many(ext, Mode::U, cap, 3, 16, |d| IntGaugeDriver { vec_child: d.vec_child, start: d.start, programs: d.programs.clone() }));
     let summary = fold_results(&mut rep, results);
     rep.extra.insert("modes".into(), summary);
     rep.assumptions = vec![
